@@ -19,6 +19,7 @@ def run(ctx: Ctx) -> list[Ob]:
     obs += r5h_mod.r5h(ctx)
     obs += r6t_mod.r6t(ctx)
     obs += r14w_mod.arrays_copied_as_given(ctx)
+    obs += r5h_mod.r5i(ctx)
     return obs
 
 
@@ -38,10 +39,11 @@ SPEC = PropSpec(
         ' R5h: the two axis idioms put axis 0 on the right side -- in `d if d >= 0 else d + len(shape)` (normalisation) axis 0 stays, in `a if a < 0 else a + 1` (shift past the fold dimension) every non-negative axis, 0 included, moves by one; the branch taken at 0 is derived from the comparison operator of each such conditional expression.'
         ' R6t: a registry class constructed from a mapping it later mutates (add_rule) copies that mapping in its constructor: the compilers are built from the module-level default rule tables, and a registry that keeps the dict it was given makes a rule added to one compiler / pipeline context active in every other one.'
         ' R14w: an array constant is copied exactly whatever its memory layout and whenever it is (re-)initialised: what torch.from_numpy is given passes through np.ascontiguousarray / .copy() (it refuses negative strides), and an in-place initialiser takes the dtype from the tensor it fills, with no detour through torch.get_default_dtype().'
+        ' R5i: a normalised axis (`a + len(shape) if a < 0 else a`) is range-checked at both ends (`0 <= a < len(..)`): an upper bound alone admits axes below -rank, which stay negative and index from the end, so the operation runs along another axis than the declared one.'
     ),
     not_decided=(
         "statistical moments of the samples."
     ),
     run=run,
-    floors={"R14w": 3, "R6t": 1, "R5h": 8, "R4i": 9, "R1a": 4, "R1b": 4, "R1c": 12, "R4": 3},
+    floors={"R5i": 8, "R14w": 3, "R6t": 1, "R5h": 8, "R4i": 9, "R1a": 4, "R1b": 4, "R1c": 12, "R4": 3},
 )
